@@ -86,9 +86,11 @@ ConditionalScope::~ConditionalScope()
 	{
 		m_lastCondition = *m_combinedelseChainConditon;
 	}
-	else if (m_lastConditionOnEntry && m_lastConditionOnEntry != m_lastCondition)
+	else if (m_lastConditionOnEntry && s_nextId != m_id + 1)
 	{
 		// special case for ELSEIF to catch the condition of the IF scope in the ELSE dtor
+		// (a scope was opened and closed inside this ELSE; comparing m_lastCondition with its value on entry would miss
+		// a nested IF that reuses the very same condition signal)
 		hlim::Node_Logic* orNode = DesignScope::createNode<hlim::Node_Logic>(hlim::Node_Logic::OR);
 		orNode->connectInput(0, m_lastCondition);
 		orNode->connectInput(1, *m_lastConditionOnEntry);
